@@ -432,6 +432,207 @@ Proof.
   split; vm_compute; auto.
 Qed.
 
+(* ------------------------------------------------------------------ an independent reading: rendering directives *)
+
+(* A directive given as (name, argument values).  [render] writes it the way the NGINX documentation says arbitrary
+   values must be written: every argument in double quotes, with a backslash before every double quote and every
+   backslash.  Whatever bytes the values consist of, exactly the names come back. *)
+Definition escape_char (c : ascii) : string :=
+  match classify c with
+  | CDq | CBslash => String "\" (String c "")
+  | _ => String c ""
+  end.
+
+Fixpoint escape (a : string) : string :=
+  match a with
+  | EmptyString => ""
+  | String c r => escape_char c ++ escape r
+  end.
+
+Definition render_arg (a : string) : string := (" """ ++ escape a ++ """")%string.
+
+Definition render1 (d : string * list string) : string :=
+  (fst d ++ String.concat "" (map render_arg (snd d)) ++ ";" ++ nl)%string.
+
+Definition render (ds : list (string * list string)) : string := String.concat "" (map render1 ds).
+
+Fixpoint all_other (w : string) : bool :=
+  match w with
+  | EmptyString => true
+  | String c r => match classify c with COther => all_other r | _ => false end
+  end.
+
+Definition bare_name (w : string) : bool := negb (w =? "") && all_other w.
+
+Definition st_word (acc : string) (named : bool) := mkS acc QNone true false false false named 0.
+Definition st_gap (named : bool) := mkS "" QNone false false false false named 0.
+Definition st_dq (acc : string) (dollar : bool) := mkS acc QDq true false dollar false true 0.
+
+Lemma sapp_assoc : forall a b c : string, ((a ++ b) ++ c = a ++ (b ++ c))%string.
+Proof. induction a; intros; simpl; [reflexivity | rewrite IHa; reflexivity]. Qed.
+
+Lemma sapp_nil_r : forall a : string, (a ++ "")%string = a.
+Proof. induction a; simpl; congruence. Qed.
+
+Lemma scan_cons : forall st c r,
+  scan_from st (String c r) = snd (scan_step st c) ++ scan_from (fst (scan_step st c)) r.
+Proof. intros. simpl. destruct (scan_step st c). reflexivity. Qed.
+
+Definition st_esc (acc : string) := mkS acc QDq true true false false true 0.
+Definition emit_name (acc : string) (named : bool) : list string :=
+  if negb named && negb (acc =? "") then [acc] else [].
+
+Lemma step_word : forall acc named c, classify c = COther ->
+  scan_step (st_word acc named) c = (st_word (app1 acc c) named, []).
+Proof. intros acc named c K. unfold scan_step, st_word. simpl. rewrite K. reflexivity. Qed.
+
+Lemma step_gap_other : forall named c, classify c = COther ->
+  scan_step (st_gap named) c = (st_word (app1 "" c) named, []).
+Proof. intros named c K. unfold scan_step, st_gap, st_word. simpl. rewrite K. reflexivity. Qed.
+
+Lemma step_word_space : forall acc named,
+  scan_step (st_word acc named) " " = (st_gap true, emit_name acc named).
+Proof. intros acc [|]; unfold scan_step, st_word, st_gap, emit_name, end_token; simpl; reflexivity. Qed.
+
+Lemma step_word_semi : forall acc named,
+  scan_step (st_word acc named) ";" = (st_gap false, emit_name acc named).
+Proof. intros acc [|]; unfold scan_step, st_word, st_gap, emit_name, end_token, set_named_depth; simpl; reflexivity. Qed.
+
+Lemma step_gap_space : forall named, scan_step (st_gap named) " " = (st_gap named, []).
+Proof. reflexivity. Qed.
+
+Lemma step_gap_nl : forall named, scan_step (st_gap named) "010" = (st_gap named, []).
+Proof. reflexivity. Qed.
+
+Lemma step_gap_semi : forall named, scan_step (st_gap named) ";" = (st_gap false, []).
+Proof. intros [|]; reflexivity. Qed.
+
+Lemma step_gap_dq : scan_step (st_gap true) """" = (st_dq "" false, []).
+Proof. reflexivity. Qed.
+
+Lemma step_dq_close : forall acc d, scan_step (st_dq acc d) """" = (st_gap true, []).
+Proof. intros acc [|]; reflexivity. Qed.
+
+Lemma step_dq_bslash : forall acc d c, classify c = CBslash ->
+  scan_step (st_dq acc d) c = (st_esc (app1 acc c), []).
+Proof. intros acc d c K. unfold scan_step, st_dq, st_esc. simpl. rewrite K. destruct d; reflexivity. Qed.
+
+Lemma step_esc : forall acc c, scan_step (st_esc acc) c = (st_dq (app1 acc c) false, []).
+Proof. reflexivity. Qed.
+
+Lemma step_dq_plain : forall acc d c, classify c <> CDq -> classify c <> CBslash ->
+  exists d', scan_step (st_dq acc d) c = (st_dq (app1 acc c) d', []).
+Proof.
+  intros acc d c K1 K2. unfold scan_step, st_dq. simpl.
+  destruct (classify c); try congruence; destruct d; simpl; eauto.
+Qed.
+
+Lemma scan_word : forall w acc named r, all_other w = true ->
+  scan_from (st_word acc named) (w ++ r)%string = scan_from (st_word (acc ++ w)%string named) r.
+Proof.
+  induction w as [|c w IH]; intros acc named r H; simpl in H.
+  - rewrite sapp_nil_r. reflexivity.
+  - destruct (classify c) eqn:K; try discriminate.
+    change (String c w ++ r)%string with (String c (w ++ r)%string).
+    rewrite scan_cons, step_word by exact K. simpl fst; simpl snd. rewrite app_nil_l.
+    rewrite IH by exact H. unfold app1. rewrite sapp_assoc. reflexivity.
+Qed.
+
+Lemma scan_escaped : forall a acc dollar r,
+  exists acc' dollar', scan_from (st_dq acc dollar) (escape a ++ r)%string = scan_from (st_dq acc' dollar') r.
+Proof.
+  induction a as [|c a IH]; intros acc dollar r.
+  - simpl. eauto.
+  - simpl escape. rewrite sapp_assoc. unfold escape_char.
+    destruct (classify c) eqn:K.
+    all: try (change (String c "" ++ (escape a ++ r))%string with (String c (escape a ++ r)%string);
+              rewrite scan_cons;
+              destruct (step_dq_plain acc dollar c) as [d' E]; [rewrite K; discriminate | rewrite K; discriminate |];
+              rewrite E; simpl fst; simpl snd; rewrite app_nil_l; apply IH).
+    + (* backslash: written as two backslashes *)
+      change (String "\" (String c "") ++ (escape a ++ r))%string with (String "\" (String c (escape a ++ r)%string)).
+      rewrite scan_cons, step_dq_bslash by reflexivity. simpl fst; simpl snd. rewrite app_nil_l.
+      rewrite scan_cons, step_esc. simpl fst; simpl snd. rewrite app_nil_l. apply IH.
+    + (* double quote: written as backslash, quote *)
+      change (String "\" (String c "") ++ (escape a ++ r))%string with (String "\" (String c (escape a ++ r)%string)).
+      rewrite scan_cons, step_dq_bslash by reflexivity. simpl fst; simpl snd. rewrite app_nil_l.
+      rewrite scan_cons, step_esc. simpl fst; simpl snd. rewrite app_nil_l. apply IH.
+Qed.
+
+Lemma concat_cons_app : forall (x : string) l r,
+  (String.concat "" (x :: l) ++ r = x ++ (String.concat "" l ++ r))%string.
+Proof.
+  intros x l r. destruct l as [|y l]; simpl.
+  - reflexivity.
+  - rewrite sapp_assoc. reflexivity.
+Qed.
+
+Lemma scan_arg : forall a r, scan_from (st_gap true) (render_arg a ++ r)%string = scan_from (st_gap true) r.
+Proof.
+  intros a r. unfold render_arg.
+  change ((" """ ++ escape a ++ """") ++ r)%string with (String " " (String """" ((escape a ++ """") ++ r)%string)).
+  rewrite scan_cons, step_gap_space. simpl fst; simpl snd. rewrite app_nil_l.
+  rewrite scan_cons, step_gap_dq. simpl fst; simpl snd. rewrite app_nil_l.
+  rewrite sapp_assoc.
+  destruct (scan_escaped a "" false ("""" ++ r)%string) as (acc' & d' & ->).
+  change ("""" ++ r)%string with (String """" r).
+  rewrite scan_cons, step_dq_close. reflexivity.
+Qed.
+
+Lemma scan_args : forall args r,
+  scan_from (st_gap true) (String.concat "" (map render_arg args) ++ r)%string = scan_from (st_gap true) r.
+Proof.
+  induction args as [|a args IH]; intros r.
+  - reflexivity.
+  - simpl map. rewrite concat_cons_app, scan_arg. apply IH.
+Qed.
+
+Lemma emit_name_bare : forall c w, emit_name (app1 "" c ++ w)%string false = [(String c w)].
+Proof. intros. reflexivity. Qed.
+
+Lemma render_names : forall ds,
+  forallb (fun d => bare_name (fst d)) ds = true -> parse_directives (render ds) = map fst ds.
+Proof.
+  unfold parse_directives. change s_init with (st_gap false).
+  induction ds as [|[name args] ds IH]; intros H.
+  - reflexivity.
+  - simpl in H. apply andb_true_iff in H. destruct H as [Hn H]. specialize (IH H).
+    unfold bare_name in Hn. apply andb_true_iff in Hn. destruct Hn as [Hne Hw].
+    assert (E : render ((name, args) :: ds) = (render1 (name, args) ++ render ds)%string).
+    { unfold render. simpl map. rewrite <- (sapp_nil_r (String.concat "" (render1 (name, args) :: map render1 ds))).
+      rewrite concat_cons_app, sapp_nil_r. reflexivity. }
+    rewrite E. clear E.
+    unfold render1. simpl fst; simpl snd. rewrite !sapp_assoc.
+    destruct name as [|c name]; [discriminate Hne|]. simpl in Hw.
+    destruct (classify c) eqn:K; try discriminate.
+    change (String c name ++ ?x)%string with (String c (name ++ x)%string).
+    rewrite scan_cons, step_gap_other by exact K. simpl fst; simpl snd. rewrite app_nil_l.
+    rewrite scan_word by exact Hw.
+    destruct args as [|a args].
+    + (* no argument: the ';' ends the name *)
+      simpl map. simpl String.concat.
+      change ("" ++ ";" ++ nl ++ render ds)%string with (String ";" (String "010" (render ds))).
+      rewrite scan_cons, step_word_semi. simpl fst; simpl snd.
+      rewrite scan_cons, step_gap_nl. simpl fst; simpl snd. rewrite app_nil_l.
+      rewrite IH. reflexivity.
+    + (* the space of the first argument ends the name *)
+      simpl map. rewrite concat_cons_app. unfold render_arg at 1.
+      change ((" """ ++ escape a ++ """") ++ ?x)%string with (String " " (String """" ((escape a ++ """") ++ x)%string)).
+      rewrite scan_cons, step_word_space. simpl fst; simpl snd.
+      rewrite scan_cons, step_gap_dq. simpl fst; simpl snd. rewrite app_nil_l.
+      rewrite sapp_assoc.
+      match goal with |- context [scan_from (st_dq "" false) (escape a ++ ?x)%string] =>
+        destruct (scan_escaped a "" false x) as (acc' & d' & ->) end.
+      match goal with |- context [scan_from (st_dq acc' d') ("""" ++ ?x)%string] =>
+        change ("""" ++ x)%string with (String """" x) end.
+      rewrite scan_cons, step_dq_close. simpl fst; simpl snd. rewrite app_nil_l.
+      rewrite scan_args.
+      change (";" ++ nl ++ render ds)%string with (String ";" (String "010" (render ds))).
+      rewrite scan_cons, step_gap_semi. simpl fst; simpl snd. rewrite app_nil_l.
+      rewrite scan_cons, step_gap_nl. simpl fst; simpl snd. rewrite app_nil_l.
+      rewrite IH. reflexivity.
+Qed.
+
 (* ------------------------------------------------------------------ non-vacuity *)
 
 Definition ex_snippet : string :=
@@ -485,3 +686,12 @@ Example ex_counts :
    ("ObservabilityPolicyCount", 1); ("UpstreamSettingsPolicyCount", 1); ("NginxProxyCount", 1);
    ("SnippetsFilterCount", 3)]%string%Z.
 Proof. vm_compute. reflexivity. Qed.
+
+Definition ex_directives : list (string * list string) :=
+  [("add_header", ["X-Note"; "a;secret b"; "say ""hi"" \ {"]); ("aio", []);
+   ("proxy_set_header", ["Host"; "internal.example.com" ++ nl ++ "# not a comment; }"])]%string.
+
+Example ex_render : forallb (fun d => bare_name (fst d)) ex_directives = true /\
+  parse_directives (render ex_directives) = ["add_header"; "aio"; "proxy_set_header"]%string /\
+  parse_old (render ex_directives) <> ["add_header"; "aio"; "proxy_set_header"]%string.
+Proof. split; [vm_compute; reflexivity|]. split; [vm_compute; reflexivity|]. vm_compute. discriminate. Qed.
